@@ -1,1 +1,155 @@
-//! placeholder (scorer and output-sweeper blobs: C12 / C07)
+//! blobsim: scorer and output-sweeper state under simulated time, storage faults and crashes
+//! (properties C12 and C07, see SPEC.md). Two profiles: `scorer` and `sweeper`.
+
+pub mod scorer;
+pub mod sweeper;
+
+use serde_json::Value;
+use simcore::{Rng, RunOutcome, Sim, Tier};
+
+pub struct BlobSim;
+
+pub const PROFILES: &[&str] = &["scorer", "sweeper"];
+
+fn bad(msg: String) -> RunOutcome {
+	let mut o = RunOutcome::default();
+	o.harness_errors.push(msg);
+	o
+}
+
+impl Sim for BlobSim {
+	fn name(&self) -> &'static str {
+		"blobsim"
+	}
+
+	fn run(&self, profile: &str, seed: u64, tier: Tier) -> RunOutcome {
+		let mut rng = Rng::new(seed);
+		let mut out = match profile {
+			"scorer" => {
+				let cfg = scorer::gen_config(&mut rng, tier);
+				let mut sched = rng.fork("schedule");
+				let mut w = scorer::World::new(cfg);
+				let mut idle = 0;
+				while !w.dead && w.step < w.cfg.max_steps && idle < 100 {
+					let a = scorer::next_action(&w, &mut sched);
+					if w.apply(&a) {
+						idle = 0;
+					} else {
+						idle += 1;
+					}
+				}
+				w.finish()
+			},
+			"sweeper" => {
+				let cfg = sweeper::gen_config(&mut rng, tier);
+				let mut sched = rng.fork("schedule");
+				let mut w = sweeper::World::new(cfg);
+				let mut idle = 0;
+				while !w.dead && w.step < w.cfg.max_steps && idle < 100 {
+					let a = sweeper::next_action(&w, &mut sched);
+					if w.apply(&a) {
+						idle = 0;
+					} else {
+						idle += 1;
+					}
+				}
+				w.finish(true)
+			},
+			_ => return bad(format!("blobsim: unknown profile {:?}", profile)),
+		};
+		out.seed = seed;
+		out.profile = profile.to_string();
+		out
+	}
+
+	fn replay(&self, replay: &Value) -> RunOutcome {
+		let profile = replay["profile"].as_str().unwrap_or("");
+		let mut out = match profile {
+			"scorer" => {
+				let cfg: scorer::Config = match serde_json::from_value(replay["config"].clone()) {
+					Ok(c) => c,
+					Err(e) => return bad(format!("bad replay config: {}", e)),
+				};
+				let trace: Vec<scorer::Action> = match serde_json::from_value(replay["trace"].clone()) {
+					Ok(t) => t,
+					Err(e) => return bad(format!("bad replay trace: {}", e)),
+				};
+				if cfg.n_nodes < 2
+					|| cfg.n_nodes > 64 || cfg.chans.len() > 256
+					|| cfg.chans.iter().any(|c| c.a >= cfg.n_nodes || c.b >= cfg.n_nodes || c.a == c.b)
+				{
+					return bad("bad replay config: inconsistent graph".into());
+				}
+				let mut w = scorer::World::new(cfg);
+				for a in trace.iter() {
+					if w.dead {
+						break;
+					}
+					w.apply(a);
+				}
+				w.finish()
+			},
+			"sweeper" => {
+				let cfg: sweeper::Config = match serde_json::from_value(replay["config"].clone()) {
+					Ok(c) => c,
+					Err(e) => return bad(format!("bad replay config: {}", e)),
+				};
+				let trace: Vec<sweeper::Action> = match serde_json::from_value(replay["trace"].clone()) {
+					Ok(t) => t,
+					Err(e) => return bad(format!("bad replay trace: {}", e)),
+				};
+				let mut w = sweeper::World::new(cfg);
+				for a in trace.iter() {
+					if w.dead {
+						break;
+					}
+					w.apply(a);
+				}
+				// the liveness epilogue is part of the recorded trace (Settle actions), not re-generated
+				w.finish(false)
+			},
+			_ => return bad(format!("blobsim: unknown replay profile {:?}", profile)),
+		};
+		out.profile = profile.to_string();
+		out
+	}
+
+	fn components(&self) -> (Vec<String>, Vec<String>) {
+		(
+			vec![
+				"routing::scoring::{ProbabilisticScorer, ChannelLiquidities, CombinedScorer} (ScoreUpdate, ScoreLookUp, the liquidity/probability queries, Writeable/ReadableArgs/Readable, merge)".into(),
+				"routing::gossip::NetworkGraph (update_channel_from_unsigned_announcement, update_channel_unsigned, channel_failed_permanent, DirectedChannelInfo/EffectiveCapacity)".into(),
+				"util::sweep::OutputSweeperSync / OutputSweeper (track_spendable_outputs, regenerate_and_broadcast_spend_if_necessary, Listen, ReadableArgs, persistence through KVStoreSyncWrapper)".into(),
+				"sign::KeysManager as OutputSpender (spend_spendable_outputs: PSBT construction, fee/weight, StaticOutput signing) and its destination script".into(),
+				"chain::BlockLocator".into(),
+				"util::verif simulated wall clock (hook H2), deterministic hashing (hook H1)".into(),
+			],
+			vec![
+				"KVStoreSync (SimKv: one map, per-write injected errors that take effect or not, crash = drop the sweeper and rebuild from the map)".into(),
+				"the chain (SimChain: headers with real hash linkage, blocks carrying sweep transactions, reorganisations)".into(),
+				"BroadcasterInterface (records every sweep), FeeEstimator (a knob), ChangeDestinationSourceSync (fresh p2wpkh-shaped scripts), Filter (none)".into(),
+				"the gossip network (node keys, channels, unsigned announcements/updates built by the simulator), UtxoLookup (answers with the configured capacity)".into(),
+				"payment/probe results, wall clock, Logger (sink)".into(),
+			],
+		)
+	}
+}
+
+#[cfg(test)]
+mod tests {
+	use super::*;
+	use simcore::runner::run_isolated;
+
+	#[test]
+	fn seeds_are_clean_and_repeatable() {
+		for profile in PROFILES {
+			for seed in 0..30u64 {
+				let a = run_isolated(|| BlobSim.run(profile, simcore::mix(5, seed), Tier::Quick));
+				let b = run_isolated(|| BlobSim.run(profile, simcore::mix(5, seed), Tier::Quick));
+				assert!(a.violations.is_empty(), "{} {}: {:?}", profile, seed, a.violations);
+				assert!(a.harness_errors.is_empty(), "{} {}: {:?}", profile, seed, a.harness_errors);
+				assert_eq!(a.history_fp, b.history_fp);
+			}
+		}
+	}
+}
